@@ -163,7 +163,8 @@ void vp_seq()
 #if LINEKIND == 3
     bool thrown = false;
     try {
-        TripWireDetector bad(2u);
+        // every index >= COUNT (symbolic), not only the sample a test would pick
+        TripWireDetector bad(2u + static_cast<unsigned>(vp_nondet_range(0, 1 << 20)));
         (void)bad;
     }
     catch (const std::out_of_range&) {
